@@ -25,9 +25,14 @@ func TestMain(m *testing.M) {
 			"(around the reservation TTL, the collection tick and Limit.Duration) / batches of 2-4 requests started at one virtual instant / operations on open circuits, "+
 			"against the real relay service on a fake host (real peerstore, rcmgr, BasicConnMgr) inside a synctest bubble; population of 2-5 peers with 1-3 connections drawn from "+
 			"12 address templates (shared IPv4, IPv6 in two known ASNs and one unknown, /p2p-circuit limited and unlimited); generated ACL tables; small caps; "+
+			"the CONNECTION SET between the relay host and a reserving peer is generated: direct connections and limited ones (relayed through another relay) to the same peer coexist "+
+			"(at the start, or opened next to a reservation holder's direct connection), close one or several at a time in generated orders, and after a peer's last direct connection closed "+
+			"while a limited one stays the relay is asked about it (CONNECT to that peer, RESERVE by others from its address) - labels connset:*; "+
 			"one fault per request at a step of the hop/stop exchange (reset, malformed, oversized, partial+timeout, wrong type, lost reply, resource refusal at "+
 			"SetService/ReserveMemory/BeginSpan, NewStream error/timeout, stop reply non-OK/wrong type/garbage/reset/EOF/silence, source reset or either party disconnecting mid-handshake); "+
-			"payload chunks around Limit.Data in both directions. Oracle: reference model written from the statement (see DESIGN C11). "+
+			"payload chunks around Limit.Data in both directions. Oracle: reference model written from the statement (see DESIGN C11); a peer has disconnected once no direct "+
+			"(non-limited) connection to it is left (Connectedness is not Connected): from then on it holds no reservation, whatever limited connections remain - its slot does not count "+
+			"against the caps, it carries no reservation tag, and a well-formed CONNECT to a peer without reservation from a direct, ACL-permitted source with room on both sides is answered NO_RESERVATION. "+
 			"NON-TRIVIAL = the history contains a refused request AND (an injected fault OR a disconnect / expiry of a live reservation). "+
 			"DISTINCT = distinct (configuration, sequence of steps with their outcomes). "+
 			"Client: client.Reserve against a scripted relay whose reply is a valid one with 0-2 mutations out of 40 (reply fields, voucher domain/codec/signature/signer/peer/expiry, transport faults), identities of four key types; non-trivial = at least one mutation; distinct = distinct mutation list + key roles.",
@@ -35,7 +40,8 @@ func TestMain(m *testing.M) {
 		"asnutil.AsnForIPv6 and multiaddr IP extraction are trusted classifications",
 		"record.ConsumeEnvelope is trusted to verify envelope signatures (covered by C08)",
 		"host.NewStream, the connection manager notifications and stream scopes of the fake host follow the swarm/basic host (Connectedness: Limited when only limited connections remain; stream scope released by the first Close/Reset; streams reset when their connection closes)",
-		"between a reservation's expiry and the next collection, and for a peer left with only limited connections, either answer is accepted",
+		"between a reservation's expiry and the next collection either answer is accepted",
+		"a relayed connection that is not limited (Stat().Limited false) keeps the peer Connected, as in the swarm",
 		"the interleaving inside one batch is whatever the Go scheduler produces; batches are judged by order-independent invariants",
 	)
 	hx.Main(m)
@@ -173,6 +179,28 @@ func (w *world) step() {
 			return
 		}
 	}
+	if w.goneProbeN > 0 {
+		w.goneProbeN--
+		if g := w.goneProbe; g.limitedOnly() && w.draw("gone?", 100) < 75 && w.stepProbeLimitedOnly(g) {
+			return
+		}
+	}
+	if w.mixedPending > 0 {
+		w.mixedPending--
+		if w.draw("mixed?", 100) < 40 {
+			if p := w.drawMixedHolder(); p != nil {
+				w.sawEnd = w.sawEnd || w.mustLive(p, time.Now())
+				oc := p.openConns()
+				w.disconnect(p, oc[w.draw("mc", len(oc))])
+				for len(p.openConns()) > 0 && w.draw("mmore", 100) < w.moreCloses(p, 50) {
+					oc = p.openConns()
+					w.label("connset:several-closed-in-one-step")
+					w.disconnect(p, oc[w.draw("mc2", len(oc))])
+				}
+				return
+			}
+		}
+	}
 	x := w.draw("op", 100)
 	if x >= 16 && x < 22 && w.stepCrossRefresh() {
 		return
@@ -205,9 +233,15 @@ func (w *world) step() {
 				p = holders[w.draw("dholder", len(holders))]
 			}
 		}
+		mixed := false
+		if w.draw("dmixed", 100) < 35 {
+			if q := w.drawMixedHolder(); q != nil {
+				p, mixed = q, true
+			}
+		}
 		if oc := p.openConns(); len(oc) > 0 {
 			cs := oc[w.draw("dc", len(oc))]
-			if tpls[cs.tpl].relayed && w.draw("ddirect", 100) < 70 {
+			if !mixed && tpls[cs.tpl].relayed && w.draw("ddirect", 100) < 70 {
 				for _, c := range oc {
 					if !tpls[c.tpl].relayed {
 						cs = c
@@ -216,13 +250,43 @@ func (w *world) step() {
 			}
 			w.sawEnd = w.sawEnd || w.mustLive(p, time.Now())
 			w.disconnect(p, cs)
+			// the connection set of one peer shrinks further, in a generated order
+			more := 30
+			if mixed {
+				more = 50
+			}
+			for len(p.openConns()) > 0 && w.draw("dmore", 100) < w.moreCloses(p, more) {
+				oc = p.openConns()
+				w.label("connset:several-closed-in-one-step")
+				w.disconnect(p, oc[w.draw("dc2", len(oc))])
+			}
 		}
 	case x < 80: // new connection
 		p := w.drawPeer("np")
+		tpl := -1
+		if w.draw("nlimited", 100) < 45 {
+			// a limited connection (through another relay) next to the direct one(s) of a peer
+			// that holds a reservation
+			now := time.Now()
+			var cand []*peerSt
+			for _, q := range w.peers {
+				if w.mayLive(q, now) && q.usableConn() != nil && len(q.limitedConns()) == 0 && len(q.openConns()) < 3 {
+					cand = append(cand, q)
+				}
+			}
+			if len(cand) > 0 {
+				p = cand[w.draw("nholder", len(cand))]
+				tpl = 9 + w.draw("nlimtpl", 2)
+			}
+		}
 		if len(p.openConns()) < 3 {
-			cs := w.addConn(p, drawSecondTpl(w.rt, "ntpl"))
+			if tpl < 0 {
+				tpl = drawSecondTpl(w.rt, "ntpl")
+			}
+			cs := w.addConn(p, tpl)
 			synctest.Wait()
 			w.trace = append(w.trace, "NEWCONN "+cs.name)
+			w.noteConnSet(p)
 		}
 	case x < 90:
 		w.batch()
@@ -263,6 +327,73 @@ func (w *world) connAtIP(p *peerSt, ip string) *connSt {
 		}
 	}
 	return w.drawConn(p, "anyconn")
+}
+
+// moreCloses: the chance (percent) that one more connection of p closes in the same step; small
+// once p is left with limited connections only, so that this state is also met by later steps.
+func (w *world) moreCloses(p *peerSt, pct int) int {
+	if p.limitedOnly() {
+		return 15
+	}
+	return pct
+}
+
+// drawMixedHolder picks a peer that (possibly) holds a reservation and has direct and limited
+// connections side by side; its connections then close in a generated order.
+func (w *world) drawMixedHolder() *peerSt {
+	var cand []*peerSt
+	for _, q := range w.peers {
+		if q.rs.may && q.usableConn() != nil && len(q.limitedConns()) > 0 {
+			cand = append(cand, q)
+		}
+	}
+	if len(cand) == 0 {
+		return nil
+	}
+	return cand[w.draw("mixedp", len(cand))]
+}
+
+// stepProbeLimitedOnly: g has just lost its last direct connection and keeps a limited one, so
+// its reservation is gone. Ask the relay: a CONNECT to g from a direct source, or a RESERVE by
+// a peer without reservation (preferably from the address g reserved from, so that the
+// per-IP / per-ASN slot matters as well as the total).
+func (w *world) stepProbeLimitedOnly(g *peerSt) bool {
+	now := time.Now()
+	if w.draw("gone-kind", 100) < 50 {
+		var srcs []*peerSt
+		for _, s := range w.peers {
+			if s != g {
+				srcs = append(srcs, s)
+			}
+		}
+		src := srcs[w.draw("gone-src", len(srcs))]
+		cs := src.usableConn()
+		if cs == nil || tpls[cs.tpl].relayed {
+			cs = w.connAtIP(src, tpls[w.draw("gone-srctpl", 4)].ip)
+		}
+		w.label("connset:probe-connect-to-limited-only-peer")
+		w.opConnect(src, cs, g, "", "", stopScript{}, w.drawUsage())
+		return true
+	}
+	var cand []*peerSt
+	for _, q := range w.peers {
+		if q != g && !w.mayLive(q, now) {
+			cand = append(cand, q)
+		}
+	}
+	if len(cand) == 0 {
+		return false
+	}
+	q := cand[w.draw("gone-asker", len(cand))]
+	var cs *connSt
+	if w.goneIP != "" && w.draw("gone-ip", 100) < 60 {
+		cs = w.connAtIP(q, w.goneIP)
+	} else {
+		cs = w.drawConn(q, "gone-c")
+	}
+	w.label("connset:probe-reserve-after-limited-only-disconnect")
+	w.opReserve(q, cs, "")
+	return true
 }
 
 // stepCrossRefresh: a peer holding a reservation asks again over a connection that shares
@@ -517,6 +648,7 @@ func (w *world) closingPhase() {
 		w.endCircuit(c, "close")
 	}
 	w.audit("closing phase, all circuits closed")
+	w.closingProbeLimitedOnly()
 	now := time.Now()
 	var src, dst *peerSt
 	var scs *connSt
@@ -550,6 +682,30 @@ func (w *world) closingPhase() {
 		w.endCircuit(c, "close")
 	}
 	w.audit("closing phase, end")
+}
+
+// closingProbeLimitedOnly: every peer that ends the history with limited connections only
+// holds no reservation; a CONNECT to it from a direct, permitted source says so.
+func (w *world) closingProbeLimitedOnly() {
+	for _, g := range w.peers {
+		if !g.limitedOnly() {
+			continue
+		}
+		var src *peerSt
+		var scs *connSt
+		for _, s := range w.peers {
+			if cs := s.usableConn(); s != g && cs != nil && !tpls[cs.tpl].relayed && w.aclConnect(s, cs, g) {
+				src, scs = s, cs
+			}
+		}
+		if src == nil {
+			continue
+		}
+		if g.tagExcuse {
+			w.label("connset:closing-probe-connect-to-limited-only-former-holder")
+		}
+		w.opConnect(src, scs, g, "", "", stopScript{}, usage{End: "close"})
+	}
 }
 
 func (w *world) run() {
